@@ -24,5 +24,5 @@ one() {
   rm -rf $W
 }
 export -f one
-ls -d $REFS/*/ | xargs -P 12 -I{} bash -c 'one {} '"$HERE" | sort > /tmp/gfcross.txt
+ls -d $REFS/*/ | xargs -P 8 -I{} bash -c 'one {} '"$HERE" | sort > /tmp/gfcross.txt
 grep -c caught /tmp/gfcross.txt | sed 's/^/caught: /'; grep MISSED /tmp/gfcross.txt
